@@ -18,18 +18,41 @@ class C05(core.Check):
             '>= 16 385 / 32 769 (thorough: 65 537) values - always with empty cells, all-empty rows (leading / interior / '
             'consecutive / trailing) and zero-width columns; long structured index lists (runs, reversed, strides, '
             'constants, sorted with duplicates, permutations; interior entries disturbed; negative spellings), long masks; '
+            'spelling family: every single-axis selection is issued through one of the public spellings of the same '
+            'operation - __getitem__ (m[i], m[i, :], m[:, j]), select, index_select (index tensors), narrow (plain '
+            'slices) - with the axis written 0 / 1 or -3 / -2 and the arguments positional or by keyword; direct '
+            'narrow(dim, start, length) calls inside their contract (0 <= start, start + length <= size) with lengths '
+            'around the OTHER axis\' size, this axis\' size, 0, 1 and starts 0 / flush with the end / anywhere (12% of the '
+            'steps), plus an exhaustive spelling box (all spellings x all aliases x every in-contract (start, length) x '
+            'a fixed index set on every shape 0..4 x 0..4, thorough 0..5); the caller\'s ONE mutable list object refilled '
+            'and re-used as index (also: used for another selection of the same length on the same container just before); '
+            'row / column counts asked through size(0/-3/1/-2), len, shape must agree; tall family (6 / 30 / 80 cases, '
+            'direct oracle only, vectorised with numpy): 2^17+1 .. 2^17+1001 (level 1: 2^18, thorough: up to 2^20) rows - '
+            'or columns - i.e. beyond the shared size ladder, every value encoding its own (cell, position), gathers along '
+            'the small axis (lists / tensors / ranges / masks / stepped slices), symbolic long indices (permutations, '
+            'runs, reversed, strides, sorted, random, masks; negative spellings; int32) on the huge axis, chains of 1-3; '
             'a case is non-trivial when at least one step returns a container with >=1 cell; distinct = distinct '
             '(container, program) hash')
     partial_notes = ('"no selection modifies its source" (and: does not modify the index tensor it is given) is checked on '
-                     'the real objects (snapshot before/after), the functional Lean model cannot express aliasing',)
+                     'the real objects (snapshot before/after), the functional Lean model cannot express aliasing',
+                     'the model has ONE spelling of a selection (index expression, axis 0/1): the public spellings (select / '
+                     'index_select / narrow / __getitem__, negative axis aliases, keyword arguments) are tied to it by the '
+                     'correspondence and judged by the direct oracle',
+                     'containers with more than 2^17 rows / columns (tall family) and with 16 385 .. 65 539 rows (huge) are '
+                     'judged by the direct oracle only (too large for the model driver)')
     N_SCALE = {0: 80, 1: 150, 2: 500}
     N_HEAVY = {0: 6, 1: 16, 2: 30}
     N_HUGE = {0: 0, 1: 0, 2: 4}      # 16 385 .. 65 539 rows: judged by the direct oracle only (too large for the model driver)
+    N_TALL = {0: 6, 1: 30, 2: 80}    # 2^17+1 .. 2^20+1001 rows or columns: vectorised direct oracle only (ragged.run_tall)
 
     def generate(self, rng, n, tier):
         lv = self.level
         n_heavy, n_scale = min(self.N_HEAVY[lv], n // 4), min(self.N_SCALE[lv], n // 2)
+        n_tall = min(self.N_TALL[lv], n // 4)
         for i in range(n):
+            if i >= n - n_tall:
+                yield ragged.gen_tall_case(rng, lv)
+                continue
             payload = rng.choice(['int', 'float', 'int', 'float', 'int32', 'float64'])
             kind = rng.choice(['mnt', 'met'])
             if i < self.N_HUGE[lv]:
@@ -60,15 +83,14 @@ class C05(core.Check):
         R, C = spec['R'], spec['C']
         cells = spec['cells']
         for _ in range(60):
-            via = rng.choice(['select', 'getitem', 'api'])
             if spec['kind'] == 'met' or rng.random() < .5:
                 ix = ragged.gen_index(rng, C, allow_bad=False)
-                first = {'op': 'sel', 'ix': ix, 'dim': 1, 'via': via}
+                first = ragged.spell(rng, {'op': 'sel', 'ix': ix, 'dim': 1})
                 gathers = not (ix['t'] == 'slice' and ix['s'] in (None, 1) and spec['kind'] == 'met') and \
                     ragged.py_select(list(range(C)), ix) != list(range(C))
             else:
                 ix = ragged.gen_big_index(rng, R, self.level, allow_bad=False, max_len=R + 2)
-                first = {'op': 'sel', 'ix': ix, 'dim': 0, 'via': via}
+                first = ragged.spell(rng, {'op': 'sel', 'ix': ix, 'dim': 0})
                 gathers = ix['t'] in ('list', 'mask') or (ix['t'] == 'slice' and (ix['s'] or 1) > 1)
             ref, ncols = ragged.ref_apply(cells, C, first)
             moved = sum(len(c) for c in ref[0]) if spec['kind'] == 'met' and ref else sum(len(c) for row in ref for c in row)
@@ -94,7 +116,10 @@ class C05(core.Check):
 
     def real(self, case):
         try:
-            outs, _, findings = ragged.run_real_program(case['spec'], case['payload'], case['ops'])
+            if case.get('fam') == 'tall':
+                outs, findings = ragged.run_tall(case)
+            else:
+                outs, _, findings = ragged.run_real_program(case['spec'], case['payload'], case['ops'])
         except Exception as e:     # a library that hands back unreadable objects must yield a finding, not a crash
             outs, findings = [f'unreadable:{type(e).__name__}'], [(0, 'reading a result raises unexpectedly', None, None)]
         # findings of the direct oracle are produced while the real code runs; they are remembered per case so that
@@ -128,7 +153,7 @@ class C05(core.Check):
         if findings:
             k, what, exp, got = findings[0]
             op = case['ops'][k]
-            kind = case['spec']['kind']
+            kind = case['tall']['kind'] if case.get('fam') == 'tall' else case['spec']['kind']
             key = f'{kind}/{op["op"]}/{what}'
             return core.Violation(key, f'{kind} step {k} ({op}): {what}', case, exp, got)
         return None
@@ -139,7 +164,41 @@ class C05(core.Check):
                 return core.stable_hash(case)
         return None
 
+    @staticmethod
+    def spelling_labels(op):
+        labs = [f"via:{op.get('via')}"]
+        if op.get('via') == 'method':
+            ix = op['ix']
+            meth = 'index_select' if ix['t'] == 'mask' or ix.get('as') == 'tensor' or (ix['t'] == 'sym' and ix.get('as', 'tensor') == 'tensor') \
+                else 'narrow' if ix['t'] == 'slice' and ix['s'] in (None, 1) else 'select'
+            labs.append(f"spelling:{meth}:dim={op['dim'] - 3 if op.get('neg') else op['dim']}:{'keyword' if op.get('kw') else 'positional'}")
+            if ix.get('nar'):
+                labs.append('spelling:narrow-direct(start,length)')
+                if ix['a'] == 0:
+                    labs.append('spelling:narrow-direct:start=0')
+        elif op.get('via') == 'select':
+            labs.append(f"spelling:select:dim={op['dim'] - 3 if op.get('neg') else op['dim']}:{'keyword' if op.get('kw') else 'positional'}")
+        elif op.get('full'):
+            labs.append('spelling:getitem[i, :]')
+        if 'buf' in op['ix']:
+            labs.append('alias:list-buffer-reused' + ('+refilled-between-two-selections' if 'prebuf' in op else ''))
+        return labs
+
     def classify(self, case, outs):
+        if case.get('fam') == 'tall':
+            t = case['tall']
+            labs = ['fam:tall', f"kind:{t['kind']}", f"payload:{t['payload']}", 'scale:rows>=131073(oracle-only)' if t['R'] > t['C']
+                    else 'scale:cols>=131073(oracle-only)', f"steps:{len(case['ops'])}"]
+            for sz in (2 ** 20, 2 ** 19, 2 ** 18, 2 ** 17):
+                if max(t['R'], t['C']) > sz:
+                    labs.append(f'scale:tall-axis>2^{sz.bit_length() - 1}')
+                    break
+            for op, o in zip(case['ops'], outs):
+                ix = op['ix']
+                labs.append(f"tall-sel:{ix['t']}/{ix.get('pat', ix.get('as', ''))}:{'huge' if ix['t'] == 'sym' or (op['dim'] == 0) == (t['R'] > t['C']) else 'small'}-axis:"
+                            f"{'raises' if o == 'raises' else 'ok'}")
+                labs += self.spelling_labels(op)
+            return sorted(set(labs))
         spec = case['spec']
         big = lambda x: str(x) if x <= 7 else '8..16' if x <= 16 else '17..256' if x <= 256 else '257..4096' if x <= 4096 else '4097+'
         labs = [f"kind:{spec['kind']}", f"payload:{case['payload']}",
@@ -180,7 +239,7 @@ class C05(core.Check):
             res = 'raises' if o == 'raises' else 'ok'
             if op['op'] == 'sel':
                 labs.append(f"sel:{op['ix']['t']}/{op['ix'].get('as', '')}:dim{op['dim']}:{res}")
-                labs.append(f"via:{op.get('via')}")
+                labs += self.spelling_labels(op)
             else:
                 labs.append(f"{op['op']}:{res}")
             if isinstance(o, dict) and isinstance(o['ok'], dict):
@@ -233,6 +292,51 @@ class C05(core.Check):
                             {'case': {'spec': spec, 'payload': 'int', 'ops': [op]}, 'real': exp, 'model': rep})
         except Exception as e:
             report['broken'].append(f'slice box: driver unavailable ({e})')
+        # exhaustive spelling box: every public spelling (select / index_select / narrow / __getitem__) x every legal way
+        # of writing the axis (0, 1, -3, -2) x positional / keyword arguments, for EVERY in-contract narrow (start,
+        # length) and a fixed set of index expressions, on every shape 0..N x 0..N (so that start / length pass the
+        # OTHER axis' size in both directions); judged by the direct oracle (the model has one spelling)
+        N = 5 if tier == 'thorough' else 4
+        nsp = 0
+        for kind in ('mnt', 'met'):
+            for R in range(0, N + 1):
+                for C in range(0, N + 1):
+                    spec = ragged.gen_cells(rng, kind, R, C)
+                    progs = []
+                    for dim in (0, 1):
+                        n = R if dim == 0 else C
+                        ixs = [{'t': 'slice', 'a': a, 'b': a + ln, 's': None, 'nar': True}
+                               for a in range(n + 1) for ln in range(n - a + 1)]
+                        ixs += [{'t': 'slice', 'a': None, 'b': None, 's': None}, {'t': 'slice', 'a': 1, 'b': n + 3, 's': None},
+                                {'t': 'slice', 'a': None, 'b': None, 's': 2}]
+                        if n:
+                            ixs += [{'t': 'int', 'i': n - 1}, {'t': 'int', 'i': -n},
+                                    {'t': 'list', 'is': [n - 1, -n, 0], 'as': 'list'},
+                                    {'t': 'list', 'is': [-1, 0, n - 1, -1], 'as': 'tensor'},
+                                    {'t': 'list', 'is': list(range(n - 1, -1, -1)), 'as': 'range', 'range': [n - 1, -1, -1]},
+                                    {'t': 'mask', 'bs': [i % 2 == 0 for i in range(n)]}]
+                        for ix in ixs:
+                            for via in (('method',) if ix.get('nar') else ('method', 'select', 'getitem')):
+                                for neg in ((False,) if via == 'getitem' else (False, True)):
+                                    for kw in ((False,) if via == 'getitem' else (False, True)):
+                                        op = {'op': 'sel', 'ix': ix, 'dim': dim, 'via': via}
+                                        if neg:
+                                            op['neg'] = True
+                                        if kw:
+                                            op['kw'] = True
+                                        progs.append(op)
+                    for op in progs:
+                        nsp += 1
+                        _, _, findings = ragged.run_real_program(spec, 'int', [op])
+                        if findings:
+                            k, what, exp, got = findings[0]
+                            report['violations'].append(core.Violation(
+                                f'{kind}/spelling-box/{what}', f'{kind} {R}x{C} {op}: {what}',
+                                {'spec': spec, 'payload': 'int', 'ops': [op]}, exp, got))
+        report['extra']['spelling_box'] = {'cases': nsp, 'shapes': f'0..{N} x 0..{N}', 'exhaustive': True,
+                                           'spellings': 'select / index_select / narrow / __getitem__; dim 0, 1, -3, -2; '
+                                                        'positional and keyword; every narrow(start, length) with '
+                                                        '0 <= start, start + length <= size'}
         # _batched_arange: real helper vs its docstring model vs the literal transcription
         import torch
         from torch_frame.data.multi_tensor import _batched_arange
@@ -280,7 +384,13 @@ class C05(core.Check):
             'index tensors of dtype uint8 / int8 / int16: PyTorch advanced indexing itself rejects int8 / int16 '
             '("tensors used as indices must be long, int, byte or bool") and reads uint8 as a (deprecated) mask, so '
             'x[torch.tensor([2, 0, 1], dtype=torch.uint8)] raises IndexError; only int64 / int32 / bool index tensors '
-            'are generated']
+            'are generated',
+            'narrow(dim, start, length) outside torch.narrow\'s contract is not generated: with start > 0 and start + length '
+            '> size MultiEmbeddingTensor.narrow returns a container whose num_rows exceeds the rows it stores (e.g. 3x2 '
+            'container, narrow(0, 1, 5): num_rows 5, values of 2 rows) and MultiNestedTensor.narrow fails an assert / a '
+            'RuntimeError; a negative length returns an empty container; start = 0 with length > size returns the container '
+            'itself',
+            'dim = -1, 2, -4: IndexError (the ragged third axis / out of range) - not a selection of the property']
 
 
 CHECK = C05()
